@@ -12,7 +12,8 @@ TEXTS = {
            "sequences, LF/CRLF paragraphs; widths 0..usize::MAX; both algorithms, separators, all splitters incl. hyphen-inserting custom ones; both "
            "feature builds) is judged by TLC: an existential, backtracking cursor walk must explain each line as indent + in-order slice (+ inserted "
            "hyphen), borrowed lines must sit at their pointer offset, only spaces / line-ending characters may be skipped, and the space-at-end "
-           "exception is checked against the specification's words."),
+           "exception is checked against the specification's words. In addition every internal step of wrap() recorded through the verif-hooks "
+           "feature is replayed through the actions of the step machine MC_Wrap (spec/TraceWrap.tla; drift only)."),
  "C02": _t("First-fit wrap/fill calls on texts with well-formed escape sequences, many paragraphs and unequal indents are judged by TLC: display "
            "width of every line (specification DW, oracle widths) <= width, or the remainder is a single unnarrowable fragment per the statement."),
  "C03": _t("wrap_optimal_fit on integer fragments (n <= 60; exhaustive tiny domain + random small/medium/large-exact; default and random penalties; 1- and "
@@ -20,15 +21,18 @@ TEXTS = {
            "arrangements for n <= 9) and with first-fit; at text level the arrangement is derived existentially from wrap's lines per paragraph."),
  "C04": _t("All public functions are driven with an adversarial alphabet, widths 0..usize::MAX, all built-in option combinations, arbitrary usize penalties, "
            "finite and non-finite f64 fragment widths under catch_unwind and a watchdog; a panic/hang/overflow error is data and TLC's verdict is on the "
-           "recorded status (only wrap_columns with zero columns may fail)."),
+           "recorded status (only wrap_columns with zero columns may fail). On the model: explicit fault states for every partial operation are "
+           "unreachable (NoFault) and every step machine terminates under weak fairness (PROPERTY Terminates in the *_live.cfg configurations)."),
  "C05": _t("(i) wrap events: every paragraph whose display width plus indent fits must come back as exactly indent + paragraph without trailing spaces; "
            "(ii) the cfg(fuzzing) entry points are used to run shortcut and general path on the same line / text with widths swept across the byte length; "
            "TLC requires identical results."),
  "C06": _t("Fragment-level calls of both algorithms with arbitrary finite f64 triples; the harness logs only pointer-derived element offsets and lengths of "
-           "the returned slices; TLC judges the pure partition shape."),
+           "the returned slices; TLC judges the pure partition shape. Thorough tier: Apalache checks the first-fit loop for 8 fragments with symbolic "
+           "(arbitrary non-negative integer) widths and an arbitrary width per line."),
  "C07": _t("Fragment level (integers and dyadic eighths, width lists of length 0-3): TLC requires the returned arrangement to be greedy by the declarative "
            "definition and equal to the specification's first-fit; text level: per paragraph, some reading of the lines as an arrangement of the "
-           "specification's fragments must be greedy for the widths of the indents actually rendered."),
+           "specification's fragments must be greedy for the widths of the indents actually rendered. Step-level: every first_fit.step hook event is "
+           "replayed through FFStep of the machine; thorough tier: Apalache with symbolic widths."),
  "C08": _t("wrap events: every line starts with the applicable indent (incl. empty / whitespace-only paragraphs); pairs of calls whose indents differ only "
            "in characters (equal display width and emptiness) must agree on everything after the indent."),
  "C09": _t("Composite events record wrap(a), wrap(b), wrap(a2), wrap(a+nl+b), wrap(a2+nl+b), fill and the CRLF twins; TLC re-checks the argument relation and "
@@ -46,7 +50,8 @@ TEXTS = {
  "C14": _t("fill applied to its own output on exhaustive small texts and random texts; the side conditions of the statement (no forced break, no overflow) are "
            "evaluated by TLC from the specification's words and the first result."),
  "C15": _t("fill -> unfill round trips over a word vocabulary, all widths, indent pairs from the prefix alphabet, both algorithms, LF/CRLF, with/without "
-           "trailing ending (precondition re-checked by TLC); unfill on arbitrary strings for the structural half."),
+           "trailing ending (precondition re-checked by TLC); unfill on arbitrary strings for the structural half; every iteration of unfill's two "
+           "loops (two independently written line iterators, #466) is replayed through Loop1 / Loop2 of the step machine MC_Refill (spec/TraceRefill.tla)."),
  "C16": _t("refill(fill(t,o1),o2) vs fill(t,o2 with o1's indents) for all pairs of widths / endings / algorithms; precondition (>= 2 lines, breaks at spaces) "
            "re-checked by TLC."),
  "C17": _t("fill_inplace on exhaustive small texts and random multi-paragraph texts at all widths; TLC judges same length, only space->newline changes and "
